@@ -247,6 +247,60 @@ def read_cfg_only_dir() -> bool:
     raise TranslateError("_parse_setup_py: the setup_dir decision was not found")
 
 
+def read_cfg_reader() -> bool:
+    """_add_setup_cfg_kwargs must read setup.cfg as UTF-8: parser.read("setup.cfg", encoding="utf-8").
+    (Inside the analysis `open` is Extractor.open, which decodes as ASCII when no encoding is given.)"""
+    f = T.func(T.parse("req_compile/metadata/source.py"), "_add_setup_cfg_kwargs")
+    reads = [n for n in ast.walk(f) if isinstance(n, ast.Call) and isinstance(n.func, ast.Attribute)
+             and n.func.attr in ("read", "read_file", "read_string", "read_dict") and _safe_chain(n.func.value) == "parser"]
+    if len(reads) != 1 or reads[0].func.attr != "read":
+        raise TranslateError("_add_setup_cfg_kwargs: setup.cfg is no longer read with parser.read(<name>, encoding=...)")
+    c = reads[0]
+    if not (len(c.args) == 1 and _const_str(c.args[0]) == "setup.cfg"):
+        raise TranslateError("_add_setup_cfg_kwargs: parser.read is not given the literal 'setup.cfg'")
+    enc = [k for k in c.keywords if k.arg == "encoding"]
+    if len(enc) != 1:
+        raise TranslateError("_add_setup_cfg_kwargs: parser.read without an explicit encoding (the patched open decodes ASCII)")
+    return _const_str(enc[0].value).lower().replace("_", "-") in ("utf-8", "utf8")
+
+
+def read_open_default() -> str:
+    """Extractor.open: text mode without an encoding decodes with `encoding or "<default>"`"""
+    f = T.func(T.klass(T.parse("req_compile/metadata/extractor.py"), "Extractor"), "open")
+    found = []
+    for n in ast.walk(f):
+        if isinstance(n, ast.Call) and _safe_chain(n.func) == "WithDecoding" and len(n.args) == 2:
+            e = n.args[1]
+            if not (isinstance(e, ast.BoolOp) and isinstance(e.op, ast.Or) and len(e.values) == 2
+                    and _safe_chain(e.values[0]) == "encoding"):
+                raise TranslateError("Extractor.open: expected WithDecoding(handle, encoding or <default>)")
+            found.append(_const_str(e.values[1]))
+    if len(found) != 1:
+        raise TranslateError("Extractor.open: the decoding wrapper was not found")
+    return found[0].lower().replace("_", "-")
+
+
+def read_egg_info_name() -> bool:
+    """_build_egg_info: is the project name of the fall-back result taken from the PKG-INFO it just wrote
+    (True) or is it the file/directory name handed in (`project_name=name`, False)?"""
+    f = T.func(T.parse("req_compile/metadata/source.py"), "_build_egg_info")
+    calls = [n for n in ast.walk(f) if isinstance(n, ast.Call) and _safe_chain(n.func) == "pkg_resources.Distribution"]
+    if len(calls) != 1:
+        raise TranslateError("_build_egg_info: pkg_resources.Distribution(...) not found")
+    kw = [k for k in calls[0].keywords if k.arg == "project_name"]
+    if len(kw) != 1:
+        raise TranslateError("_build_egg_info: project_name= not given")
+    if isinstance(kw[0].value, ast.Name) and kw[0].value.id == "name":
+        return False
+    reads = [n for n in ast.walk(f) if isinstance(n, ast.Call) and isinstance(n.func, ast.Attribute)
+             and n.func.attr in ("get_metadata_lines", "get_metadata") and n.args and isinstance(n.args[0], ast.Constant)
+             and n.args[0].value == "PKG-INFO"]
+    names = [n for n in ast.walk(f) if isinstance(n, ast.Constant) and n.value == "Name:"]
+    if reads and names and "declared" in ast.dump(kw[0].value):
+        return True
+    raise TranslateError("_build_egg_info: unrecognised project_name expression")
+
+
 def generate() -> str:
     test, g_open, g_close, g_semi = read_glue()
     frameworks, pre, suf, esc, key_sep, name_repl, env_open, env_close, key_join = read_setup()
@@ -277,6 +331,9 @@ def generate() -> str:
     out += "Definition archive_exts_tar : list string := [" + "; ".join(cs(x) for x in tars) + "].\n"
     out += "Definition pyproject_only_for_dirs : bool := true.\n"
     out += f"Definition cfg_only_dir_follows_cfg : bool := {'true' if read_cfg_only_dir() else 'false'}.\n"
+    out += f"Definition cfg_read_as_utf8 : bool := {'true' if read_cfg_reader() else 'false'}.\n"
+    out += f"Definition open_default_encoding : string := {cs(read_open_default())}.\n"
+    out += f"Definition fallback_name_from_pkg_info : bool := {'true' if read_egg_info_name() else 'false'}.\n"
     return out
 
 
